@@ -234,6 +234,7 @@ def build(template_path, out_path, canary=False, repo=None, mutate=None):
     def emit_cut(cut):
         sf = source(cut.path)
         mclo = re.match(r"closure (\d+) as (\w+) in (.*)$", cut.selector)
+        mrng = re.match(r"range (.*?) \.\.\. (.*?) as (\w+)(\(.*\)(?:\s*->\s*.*?)?) in (fn .*|method .*)$", cut.selector)
         marm = re.match(r"arm (.*?) as (\w+)(\(.*\)(?:\s*->\s*.*?)?) in (fn .*|method .*)$", cut.selector)
         if mclo:
             it = sf.find(mclo.group(3))
@@ -241,6 +242,12 @@ def build(template_path, out_path, canary=False, repo=None, mutate=None):
             from .rustlex import line_of
             s, e, l0, l1 = cs, ce, line_of(sf.src, cs), line_of(sf.src, ce)
             cut.name = mclo.group(2)
+        elif mrng:
+            it = sf.find(mrng.group(5))
+            raw, cs, ce = sf.range_as_fn(it, mrng.group(1).replace("\\n", "\n"), mrng.group(2).replace("\\n", "\n"), mrng.group(3), mrng.group(4))
+            from .rustlex import line_of
+            s, e, l0, l1 = cs, ce, line_of(sf.src, cs), line_of(sf.src, ce)
+            cut.name = mrng.group(3)
         elif marm:
             it = sf.find(marm.group(4))
             raw, cs, ce = sf.arm_as_fn(it, marm.group(1).strip(), marm.group(2), marm.group(3))
